@@ -76,6 +76,7 @@ class Built:
         self.unit_c = None
         self.lowered = None   # cxx2c.Unit
         self.text = None
+        self.lowered_text = None
 
 
 def work_dir(prop):
@@ -123,6 +124,7 @@ def lower_unit(spec, prop):
         f.write(b.text)
     with open(os.path.join(b.dir, "lowered.c"), "w") as f:
         f.write(text)
+    b.lowered_text = text
     # loop-contract macros the spec defines must correspond to loops that exist
     if spec.spec_header and getattr(spec, "must_fire", True):
         sh = open(os.path.join(VERIF, spec.spec_header)).read()
@@ -252,7 +254,9 @@ def run_harness(built, h, canary=False):
             else:
                 cmd += ["--enforce-contract", h.enforce]
         for g in h.replace:
-            cmd += ["--replace-call-with-contract", g]
+            # a callee the lowered code no longer calls has nothing to replace
+            if re.search(r"\b%s\s*\(" % re.escape(g), built.lowered_text or ""):
+                cmd += ["--replace-call-with-contract", g]
         if h.loop_contracts:
             cmd += ["--apply-loop-contracts"]
         if h.nondet_static:
